@@ -61,6 +61,15 @@ def make_case(prop, seed, i, tier):
         spec["sim"]["max_time"] = 60
     else:
         spec = G.gen_random(rng, G.profile(facility_rich=rng.random() < 0.35, max_time=50, ensure_worker=0.97, max_tasks=7))
+    if i % 12 == 7:
+        # beyond the usual sizes: 30 and more tasks, wide fan-in, long finish-gated chains, big teams, many components
+        spec = G.gen_scale(rng, rng.choice(["wide", "ff_chain", "one_component", "many_resources", "numeric_ids", "many_components", "long"]))
+        if rng.random() < 0.5:
+            # a large random model: 30 and more tasks that compete for workers
+            spec = G.gen_random(rng, G.profile(large=1.0, min_tasks=30, max_tasks=36, facility_rich=rng.random() < 0.3, max_time=40, fixed_lists=False, nested=False))
+            spec["sim"]["absence"] = [x for x in spec["sim"]["absence"] if x < 60][:6]
+            if rng.random() < 0.5:
+                spec["sim"]["rule"] = 0
     add_due_times(rng, spec)
     mode = "inject" if i % 3 == 0 else "order"
     if mode == "order" and rng.random() < 0.7:
@@ -186,8 +195,10 @@ def run_case(case):
         return res
     # ---- fault injection: an exception raised from the observer at (step, phase)
     points = pl.points
-    if case["tier"] == "thorough":
+    if case["tier"] == "thorough" and len(points) <= 400:
         chosen = points
+    elif case["tier"] == "thorough":
+        chosen = points[:200] + rng.sample(points[200:], 150) + [points[-1]]   # (long runs of the large models)
     else:
         chosen = rng.sample(points, min(8, len(points)))
         for sp in (points[0], points[-1]):
